@@ -63,6 +63,7 @@ def parseQ (s : String) : Option Q :=
   | ["commit"] => some .commit
   | ["rollback"] => some .rollback
   | ["fail"] => some .fail
+  | ["bad"] => some .malformed
   | _ => none
 
 /-- `L:<tok>:<backing>:<schema>` | `Q:<auth or ->:<q>` — tok/auth as code-point strings -/
